@@ -471,8 +471,9 @@ class Rotation(torch.nn.Module):
         elif copy:
             # no need to clone if we are normalizing
             quaternions_ = quaternions_.clone()
-        if copy:
-            is_improper = is_improper.clone()
+        # the flags always own their storage: they are edited in-place by __setitem__ and the is_improper setter,
+        # so they must neither be an expanded (stride 0) tensor nor a view into another Rotation
+        is_improper = is_improper.clone()
 
         if is_improper.requires_grad:
             warnings.warn('Rotation is not differentiable in the improper parameter.', stacklevel=2)
